@@ -12,6 +12,12 @@ func init() {
 			"nat.Logger.LogAllocation", "nat.Logger.LogDeallocation", "nat.Logger.addEntry", "nat.Logger.addPortBlockEntry",
 			"nat.Logger.Flush", "nat.Logger.FlushPortBlocks",
 		},
+		// the file / rotation layer of the compliance log is a trusted frame for the verifier: bounded stand-in
+		BoundedChecks: []BoundedCheck{
+			{ID: "nat.log_rotation", Pkg: "github.com/codelaboratoryltd/bng/pkg/nat", File: "nat_log_rotation.go",
+				Bound: "120 allocations and 120 releases logged in bulk mode through a file with a 2 KB rotation limit (about twenty rotations, most within one second)",
+				Claim: "every record handed to the logger is found exactly once in the current or a rotated file"},
+		},
 		Undecided: []string{
 			"log/attribution clause, PARTLY decided: AllocateNAT logs exactly once on the path that creates a block and never otherwise, DeallocateNAT exactly once in the call that removed the allocation (ghost call counters); LogAllocation / LogDeallocation put exactly one record into the live buffer when logging is enabled; Flush / FlushPortBlocks hand every buffered record to the writer exactly once and restart the live buffer on storage the flush does not share (records being written cannot be overwritten by later log calls). NOT decided: the content of the records (by reading: non-bulk records carry only PortStart, release records carry no subscriber id and no PortEnd, so attribution relies on the fixed block size and on the preceding allocate record), no record when natLogger == nil or Logger.enabled == false, the formatting and file/rotation layer (trusted), records lost when the process stops before a flush",
 			"'same public address' is approximated by 'same pool index'; two pool entries with the same address are not excluded by any invariant (AddPublicIP does not deduplicate: refuted by replay)",
